@@ -91,8 +91,10 @@ class Shape:
                    self.fn.span, fn=self.fn.path, key=P + ".landing|%s" % self.key)
             return 0
         n = 0
-        for w in sorted(set(words), key=jumps.show):
+        base_key = self.key
+        for wi, w in enumerate(sorted(set(words), key=jumps.show)):
             n += 1
+            self.key = base_key if wi == 0 else "%s#%d" % (base_key, wi + 1)     # several words per shape (named / generated counter register)
             xi = x_index(w) if x else None
             xd = Lin({"f": 1}, -1) if x else None
             pos, edges, problems, ends, seen = jumps.machine(w, xi, xd)
@@ -727,10 +729,11 @@ def generators(F, rep):
                                                           extra_depths=[("val_start", 0), ("val_end", 0), ("step", 1)])
             if x is None:
                 sk = from_skeleton(inclusive, step, coll, names)
-                for w in sorted(set(ok_words(rows)), key=jumps.show):
+                for wi, w in enumerate(sorted(set(ok_words(rows)), key=jumps.show)):
                     bad = sk(w)
                     rep.ob(P + ".skeleton", "%s: counter / bound registers, test operator, step and clean-up" % lab, "violated" if bad else "ok",
-                           ("; ".join(bad) + " -- " if bad else "") + jumps.show(w), frc.span, fn=frc.path, key=P + ".skeleton|%s" % key)
+                           ("; ".join(bad) + " -- " if bad else "") + jumps.show(w), frc.span, fn=frc.path,
+                           key=P + ".skeleton|%s%s" % (key, "" if wi == 0 else "#%d" % (wi + 1)))
                     nsk += 1
     rep.floor(P + " generator shapes judged", n, 2 + 2 + 3 + 24)
     rep.floor(P + " from-loop skeletons judged", nsk, 8)
